@@ -11,7 +11,7 @@ import ast
 from ..boolx import BoolEval, Unknown, show, valuations
 from ..model import AnalysisError
 from ..nodes import DESER_MOD
-from ..util import dotted, norm, short, walk_no_nested
+from ..util import flatten_boolop, dotted, norm, short, walk_no_nested
 
 CV = "apischema.conversions.visitor"
 DV = f"{CV}.DeserializationVisitor"
@@ -173,6 +173,21 @@ def check(ctx):
 
     subtyping_rule(ctx, "C12.R11")
 
+    # ---------------- R12: `identity` bypasses a registered conversion
+    ctx.rule("C12.R12", "a conversion is the identity bypass exactly when its converter is `identity`, its source equals its target and it carries no sub-conversion; a generic identity (source and target the same type variable) is specialised to the visited type first", floor=2)
+    isid = model.func("apischema.conversions.conversions.is_identity")
+    r12 = [r for r in walk_no_nested(isid.node) if isinstance(r, ast.Return) and r.value is not None]
+    conj12 = {norm(x) for x in flatten_boolop(r12[0].value, ast.And)} if len(r12) == 1 else set()
+    want12 = {"conversion.converter == identity", "conversion.source == conversion.target", "conversion.sub_conversion is None"}
+    ctx.check(conj12 == want12, "C12.R12", f"{isid.qualname}:definition", None,
+              f"is_identity tests {sorted(conj12)}: " + ("a conversion with another converter / other types is taken for the bypass and the registered conversion of the type is skipped" if want12 - conj12 else "an extra condition keeps `identity` from bypassing"),
+              isid, r12[0] if r12 else isid.node, detail=" and ".join(sorted(want12)))
+    hid = model.func("apischema.conversions.conversions.handle_identity_conversion")
+    g12 = [n for n in walk_no_nested(hid.node) if isinstance(n, ast.If)]
+    c12 = {norm(x) for x in flatten_boolop(g12[0].test, ast.And)} if g12 else set()
+    ok12 = c12 == {"is_identity(conversion)", "conversion.source == conversion.target", "is_type_var(conversion.source)"} and any(isinstance(r, ast.Return) and "source=tp" in norm(r) and "target=tp" in norm(r) for r in ast.walk(g12[0]))
+    ctx.check(ok12, "C12.R12", f"{hid.qualname}:generic-identity", None, "a generic identity conversion (T -> T) is no longer specialised to the visited type under `is_identity and source == target and source is a type variable`", hid, g12[0] if g12 else hid.node, detail="replace(conversion, source=tp, target=tp)")
+
     # ---------------- R10: generic conversions are specialised at any depth
     ctx.rule("C12.R10", "a generic conversion (source / target mentioning type variables) is specialised with the arguments of the visited type wherever the variables occur - List[List[T]] as well as List[T]: the test guarding substitute_type_vars looks at the alias's __parameters__, not at its top-level arguments only", floor=2)
     n10 = 0
@@ -288,6 +303,8 @@ def subtyping_rule(ctx, rule):
 
 
 def mutants(mb):
+    mb.add_text("identity-ignores-sub-conversion", "apischema/conversions/conversions.py", "        and conversion.sub_conversion is None\n", "", "C12.R12", "definition")
+    mb.add_text("identity-any-types", "apischema/conversions/conversions.py", "        conversion.converter == identity\n        and conversion.source == conversion.target\n", "        conversion.converter == identity\n", "C12.R12", "definition")
     mb.add_text("substitution-matches-subclass-of-abstract-source", "apischema/utils.py", "            base_origin in ITERABLE_TYPES and super_origin in ITERABLE_TYPES\n", "            super_origin in ITERABLE_TYPES and is_subclass(base_origin, super_origin)\n", "C12.R11", "matching-base")
     mb.add_text("generic-conversion-top-level-vars", "apischema/conversions/visitor.py", "    return is_type_var(tp) or (\n        not isinstance(tp, type) and bool(getattr(tp, \"__parameters__\", ()))\n    )\n", "    from apischema.utils import get_args2\n\n    return is_type_var(tp) or any(map(is_type_var, get_args2(tp)))\n", "C12.R10", "_has_conversion")
     mb.add_text("lazy-bare-converter-not-inherited", "apischema/conversions/conversions.py", "        if isinstance(conversion, Conversion):\n            return conversion.inherited\n        # a bare converter is inherited, as when it is registered directly\n        return None if conversion is not None else False\n", "        return isinstance(conversion, Conversion) and conversion.inherited\n", "C12.R9", "bare-converter")
